@@ -9,7 +9,7 @@ namespace Sq
 /-- what the model does not compute itself (DESIGN 4.4) -/
 structure Env where
   /-- `((x.atan2(y).to_degrees().floor() + 360.0) % 360.0) as u32` -/
-  atan2deg : Int → Int → Nat
+  atan2deg : SignedMag → SignedMag → Nat
   /-- `haversine(lat, lon, observer.0, observer.1)` for the configured observer; `none` = no observer -/
   dist : Option (Rat → Rat → Rat)
 
